@@ -81,7 +81,11 @@ def alpsHS (c : Case) : Verdict :=
         | some v => "hit" ++ sizeClass v.length
         | none => "miss"
     let alpnCls := if alpnNeg then "neg" else if calpn.isEmpty then "notoffered" else "none"
-    let extra := (if i.getD "ccert" "0" = "1" then ",ccert" else "") ++ (if o.getD "hellos" "1" = "2" then ",hrr" else "")
+    -- prev=1: this is the second connection over one session cache / one set of ticket keys
+    let prev := i.getD "prev" "0" = "1"
+    let resumed := o.getD "cres" "0" = "1" ∧ o.getD "sres" "0" = "1"
+    let extra := (if i.getD "ccert" "0" = "1" then ",ccert" else "") ++ (if o.getD "hellos" "1" = "2" then ",hrr" else "") ++
+      (if prev then (if resumed then ",resumed" else ",second") else "")
     let tag := s!"{smax},{wher},{alpsCls},{alpnCls},{cfgCls},{if cI = "ok" then "ok" else "abort"}{extra}"
     -- ---- property monitors on the implementation's output ----
     if smax = "12" ∧ (peer ≠ [] ∨ ceeI ≠ "none") then .propFail tag "application-settings-exposed-or-answered-below-TLS1.3"
@@ -108,7 +112,7 @@ def alpsHS (c : Case) : Verdict :=
     | none =>
     -- ---- correspondence with the model ----
     let inp : Input := { vers := vers, offeredAlpn := calpn, cfg := cfg, eeRaw := ees, alpn12 := np }
-    let r := run (fun _ => []) inp
+    let r := runConn (fun _ => []) (decide resumed) inp
     let cM : String := match r.err with | none => "ok" | some e => errStr e
     let ceeM := if r.err.isSome ∨ r.conn.utls.cp = 0 then "none" else
       match r.flight.wire with
@@ -119,7 +123,12 @@ def alpsHS (c : Case) : Verdict :=
       | some e => match e.alert with
         | some a => sI == "ralert:" ++ alertStr a || sI == "eof"
         | none => sI != "ok"
-    if ¬ cM.isPrefixOf cI then .diff tag s!"c={cM}"
+    -- the first connection had the same parameters: same prediction
+    let firstM := s!"{cM}/" 
+    if prev ∧ ¬ firstM.isPrefixOf (o.getD "first" "?") then .diff tag s!"first={cM}/…"
+    else if prev ∧ r.err.isNone ∧ ¬ (s!"ok/ok/{ceedI}").isPrefixOf (o.getD "first" "?") then .diff tag s!"first=ok/ok/{ceedI}"
+    else if prev ∧ r.err.isNone ∧ ¬ resumed then .diff tag "cres=1 sres=1"
+    else if ¬ cM.isPrefixOf cI then .diff tag s!"c={cM}"
     else if hex r.conn.utls.peer ≠ hex peer then .diff tag s!"peer={hex r.conn.utls.peer}"
     else if r.conn.clientProtocol ≠ np then .diff tag s!"np={hex r.conn.clientProtocol}"
     else if ceeM ≠ ceeI then .diff tag s!"cee={ceeM}"
